@@ -9,6 +9,7 @@ import Petl.SetOps
 import Petl.Group
 import Petl.Dedup
 import Petl.Select
+import Petl.ErrPolicy
 namespace Petl
 
 def opCmp : P String := do
@@ -416,6 +417,87 @@ def opSkip : P String := do
   let t ← pTable
   pure (showOut (.ok (islice n none 1 t)))
 
+def pPolicy : P Policy := do
+  let t ← tok
+  match t with
+  | "s" => pure .suppress | "r" => pure .raise | "i" => pure .inline
+  | _ => P.fail s!"bad policy {t}"
+
+def pErrKind : P Err := do
+  let t ← tok
+  match t with
+  | "Value" => pure .value | "Type" => pure .type | "Key" => pure .key | "Index" => pure .index
+  | _ => P.fail s!"bad error kind {t}"
+
+def pSeq : P (List Val) := do
+  match (← pVal) with
+  | .seq _ xs => pure xs
+  | _ => P.fail "expected a sequence"
+
+def outOf (hdr : Row) (res : List Row × Option Err) : Out := { rows := hdr :: res.1, err := res.2 }
+
+/-- convert <policy> <errorvalue> <n> (<fieldidx> <errkind> <failset>)… <table> -/
+def opConvert : P String := do
+  let pol ← pPolicy
+  let ev ← pVal
+  let cs ← pList (do
+    let i ← pNat
+    let e ← pErrKind
+    let fs ← pSeq
+    pure (i, failOn fs e))
+  let t ← pTable
+  match t with
+  | [] => pure (showOut (.ok []))
+  | hdr :: rows =>
+    let convs : Nat → Option Conv := fun i => (cs.find? (fun c => c.1 == i)).map (·.2)
+    pure (showOut (outOf hdr (convertRows pol ev convs rows)))
+
+/-- rowmap <policy> <errkind> <failset> <outhdr row> <table>:
+    the mapper fails when the row's first cell is in the set, else returns row + [len(row)] -/
+def opRowMap : P String := do
+  let pol ← pPolicy
+  let e ← pErrKind
+  let fs ← pSeq
+  let oh ← pRow
+  let t ← pTable
+  match t with
+  | [] => pure (showOut (.ok []))
+  | _ :: rows =>
+    let f : Row → Except Err Row := fun r =>
+      if fs.any (fun x => Val.pyEq x (getCell r 0)) then .error e else .ok (r ++ [intVal r.length])
+    pure (showOut (outOf oh (rowmapRows pol f rows)))
+
+/-- rowmapmany <policy> <errkind> <failset> <outhdr row> <table>:
+    the generator yields the row, fails if its first cell is in the set, then yields the row again -/
+def opRowMapMany : P String := do
+  let pol ← pPolicy
+  let e ← pErrKind
+  let fs ← pSeq
+  let oh ← pRow
+  let t ← pTable
+  match t with
+  | [] => pure (showOut (.ok []))
+  | _ :: rows =>
+    let f : Row → List Row × Option Err := fun r =>
+      if fs.any (fun x => Val.pyEq x (getCell r 0)) then ([r], some e) else ([r, r], none)
+    pure (showOut (outOf oh (rowmapmanyRows pol f rows)))
+
+/-- fieldmap <policy> <errorvalue> <n> (<outname> <srcidx> <errkind> <failset>)… <table> -/
+def opFieldMap : P String := do
+  let pol ← pPolicy
+  let ev ← pVal
+  let ms ← pList (do
+    let name ← pVal
+    let i ← pNat
+    let e ← pErrKind
+    let fs ← pSeq
+    pure (name, (fun (r : Row) => failOn fs e (getCell r i))))
+  let t ← pTable
+  match t with
+  | [] => pure (showOut (.ok []))
+  | _ :: rows =>
+    pure (showOut (outOf (ms.map (·.1)) (fieldmapRows pol ev (ms.map (·.2)) rows)))
+
 def dispatch (op : String) : Option (P String) :=
   match op with
   | "cmp" => some opCmp
@@ -439,6 +521,10 @@ def dispatch (op : String) : Option (P String) :=
   | "slice" => some opSlice
   | "tail" => some opTail
   | "skip" => some opSkip
+  | "convert" => some opConvert
+  | "rowmap" => some opRowMap
+  | "rowmapmany" => some opRowMapMany
+  | "fieldmap" => some opFieldMap
   | _ => none
 
 end Petl
